@@ -8,7 +8,10 @@ Program (JSON, one line):  {"prog": [stmt...], "sched": [int...], "wrap": bool}
  stmt ::= ["probe", n] | ["await", g] | ["awaitx", g] | ["raise", "exc"|"base"] | ["try", [stmt...]]
         | ["spawn", c, "spawn"|"create", [stmt...]] | ["check"] | ["cancelself"]
         | ["block", "async"|"sync"|"upd", b, [[ty, tag]...], [disp...], [stmt...]]
+        | ["hold", b]      the scope object of the (async/sync) block b is constructed *here* (`cm = ctx.scope(...)`) and only
+                           entered where the block statement stands – later in the same task, possibly in another context
  disp ::= [d, enterScript, exitScript, [[ty, tag]...]]      script ::= "ok" | "raise" | ["wait", g]
+          an entry [-1, 0] among the yields = the iterable handed back by __aenter__ raises at that point of its iteration
  sched: at every step the options are the pending gates (sorted) followed by the live tasks (cancel); the next
         int (mod number of options) picks one; when the list is exhausted the remaining gates are released in order.
 
@@ -113,9 +116,35 @@ def gen_program(rng, depth, ids, allow_spawn=True, p_disp=0.5, p_raise=0.07, p_f
                     for _ in range(rng.randint(0, 2)):
                         ids["inst"] += 1
                         ys.append([rng.randrange(3), ids["inst"]])
+                    if rng.random() < 0.06:
+                        ys.insert(rng.randint(0, len(ys)), [-1, 0])   # the yielded iterable raises part-way
                     disps.append([ids["disp"], script(), script(), ys])
             stmts.append(["block", kind, b, sup, disps, gen_program(rng, depth - 1, ids, allow_spawn, p_disp, p_raise, p_fault)])
     return stmts
+
+
+def hoist_constructions(rng, prog, p=0.12):
+    """for some async/sync blocks, construct the scope object at an earlier point of the same task (`hold`)"""
+    inserts = []   # (list object, statement before which to insert, hold statement)
+
+    def walk(stmts, points):
+        for st in stmts:
+            points.append((stmts, st))
+            if st[0] == "block":
+                if st[1] in ("async", "sync") and rng.random() < p:
+                    lst, before = points[rng.randrange(len(points))]
+                    inserts.append((lst, before, ["hold", st[2]]))
+                walk(st[5], points)
+            elif st[0] == "try":
+                walk(st[1], points)
+            elif st[0] == "spawn":
+                walk(st[3], [])    # another task: its own construction points
+
+    walk(prog, [])
+    for lst, before, hold in inserts:
+        i = next(k for k, x in enumerate(lst) if x is before)
+        lst.insert(i, hold)
+    return prog
 
 
 def gen_case(rng, depth=3, p_disp=0.5, p_raise=0.07, p_fault=0.4, p_cancel=0.2, wrap=0.85) -> str:
@@ -126,6 +155,8 @@ def gen_case(rng, depth=3, p_disp=0.5, p_raise=0.07, p_fault=0.4, p_cancel=0.2, 
     if rng.random() < wrap:
         ids["block"] += 1
         prog = [["block", "async", ids["block"], [[0, 9000]], [], prog]]
+    if rng.random() < 0.35:
+        prog = hoist_constructions(rng, prog)
     n = rng.randint(0, 14)
     sched = []
     for _ in range(n):
@@ -161,6 +192,8 @@ class Run:
         self.group_block: dict[int, int] = {}
         self.asked: set[int] = set()   # tasks on which cancel() was called by the harness or by themselves
         self.keep: list = []
+        self.held: dict[int, object] = {}   # block -> scope object constructed ahead of its `with` (stmt `hold`)
+        self.blocks: dict[int, list] = {}
         self.cap = _Capture()
         self.root = logging.getLogger()
         self.old_level = self.root.level
@@ -260,6 +293,14 @@ class Run:
                     run.ev(t, "dened", did, out_name(e))
                     raise
                 run.ev(t, "dened", did, "ok")
+                if any(i < 0 for i, _tag in ys):
+                    def faulty():
+                        for i, tag in ys:
+                            if i < 0:
+                                run.ev(t, "yraise", did)
+                                raise Boom(f"yield{did}")
+                            yield F[i](v=tag)
+                    return faulty()
                 states = [F[i](v=tag) for i, tag in ys]
                 return states if len(states) != 1 else states[0]
 
@@ -333,6 +374,12 @@ class Run:
                     task = asyncio.get_running_loop().create_task(self.task_main(c, body))
                 self.tasks[c] = task
                 self.ev(t, "spawn", c, how)
+            elif k == "hold":
+                blk = self.blocks.get(st[1])
+                if blk is not None and blk[1] in ("async", "sync"):
+                    _, kind, b, sup, disps, _body = blk
+                    insts = [F[i](v=tag) for i, tag in sup]
+                    self.held[b] = ctx.scope(f"b{b}", *insts, disposables=[self.make_disp(t, d) for d in disps] if disps else None)
             elif k == "block":
                 _, kind, b, sup, disps, body = st
                 insts = [F[i](v=tag) for i, tag in sup]
@@ -340,7 +387,9 @@ class Run:
                 self.ev(t, "pre", b, self.fingerprint())
                 try:
                     if kind == "async":
-                        cm = ctx.scope(f"b{b}", *insts, disposables=[self.make_disp(t, d) for d in disps] if disps else None)
+                        cm = self.held.pop(b, None)
+                        if cm is None:
+                            cm = ctx.scope(f"b{b}", *insts, disposables=[self.make_disp(t, d) for d in disps] if disps else None)
                         async with cm:
                             self.note_group(b)
                             self.ev(t, "enter", b)
@@ -352,7 +401,10 @@ class Run:
                                 raise
                             self.ev(t, "bodyend", b, "ok", self.pending_cancel())
                     elif kind == "sync":
-                        with ctx.scope(f"b{b}", *insts):
+                        cm = self.held.pop(b, None)
+                        if cm is None:
+                            cm = ctx.scope(f"b{b}", *insts)
+                        with cm:
                             self.ev(t, "enter", b)
                             try:
                                 await self.exec(t, body)
@@ -391,6 +443,7 @@ class Run:
         loop = self.loop
         errors = []
         loop.set_exception_handler(lambda _l, c: errors.append(str(c.get("message"))))
+        self.blocks, _ = index_program(prog)
         self.tasks[0] = loop.create_task(self.task_main(0, prog))
         loop.quiesce()
         i = 0
